@@ -486,6 +486,7 @@ func props() []rp.Prop {
 		rp.P[wireCase]{Name: "wire", Checks: ev.Pick(1200, 60000) / ev.Shards(), Gen: genWire, Check: checkWire},
 		rp.P[sameCase]{Name: "wire-concurrent", Checks: ev.Pick(60, 4000) / ev.Shards(), Gen: genSame, Check: checkSame},
 		rp.P[slowWire]{Name: "wire-slow", Sweep: sweepSlowWire, Check: checkSlowWire},
+		rp.P[halfCloseCase]{Name: "wire-tcp-peer-half-closes", Sweep: sweepHalfClose, Check: checkHalfClose},
 	}
 }
 
